@@ -1,14 +1,115 @@
 package props
 
 import (
+	"fmt"
 	"math/rand"
+	"strings"
+
+	"github.com/d5/tengo/v2"
 
 	"verif/fw"
+	"verif/gen"
 )
 
-// roundTrip is family (d); implemented once the program generator exists.
-func (c *c20) roundTrip(r *fw.Rec, rng *rand.Rand, cs fw.Case) {
-	for i := 0; i < 40; i++ {
-		c.treeOne(r, rng)
+// constant pool without addresses: functions by their instructions
+func constSummary(bc *tengo.Bytecode) []string {
+	var out []string
+	for _, c := range bc.Constants {
+		switch v := c.(type) {
+		case *tengo.CompiledFunction:
+			out = append(out, fmt.Sprintf("fn(params=%d,varargs=%v,locals=%d):%s", v.NumParameters, v.VarArgs, v.NumLocals, strings.Join(tengo.FormatInstructions(v.Instructions, 0), ";")))
+		default:
+			out = append(out, c.TypeName()+":"+canon(c))
+		}
 	}
+	return out
+}
+
+// roundTrip is family (d): the printed form of a parsed program parses again
+// and compiles to the same instructions and constants.
+func (c *c20) roundTrip(r *fw.Rec, rng *rand.Rand, cs fw.Case) {
+	for i := 0; i < 10; i++ {
+		opts := gen.Options{MaxStmts: 3 + rng.Intn(14), MaxDepth: 2 + rng.Intn(3), IdentKeys: true}
+		switch rng.Intn(3) {
+		case 0:
+			opts.ControlHeavy = true
+		case 1:
+			opts.ClosureHeavy = true
+		}
+		var src string
+		if cs.Index/4 < len(c20RTDirected) && i == 0 {
+			src = c20RTDirected[cs.Index/4]
+		} else {
+			src = gen.Generate(gen.New(rng, opts)).Src
+			if rng.Intn(4) == 0 {
+				src = "lib := import(\"lib\")\n" + src + "\nexport {a: lib.ten}\n"
+			}
+		}
+		f, err := parseSrc([]byte(src))
+		if err != nil {
+			r.Inc("d:unparsable-original")
+			continue
+		}
+		var printed string
+		perr := safely(func() error { printed = f.String(); return nil })
+		r.Eval()
+		r.Inc("d:roundtrips")
+		r.Distinct("d", src)
+		detail := map[string]interface{}{"source": src, "printed": printed}
+		if perr != nil {
+			p, _ := isPanic(perr)
+			detail["stack"] = trunc(p.stack, 2000)
+			r.Violate("d:printer-panic", "File.String() panicked", detail)
+			return
+		}
+		f2, err := parseSrc([]byte(printed))
+		if err != nil {
+			detail["error"] = err.Error()
+			r.Violate("d:reparse", "the printed form of a parsed program does not parse", detail)
+			return
+		}
+		if a, b := astDump(f), astDump(f2); a != b {
+			detail["original_ast"] = a
+			detail["reparsed_ast"] = b
+			r.Violate("d:ast", "the printed form parses to a different tree", detail)
+			return
+		}
+		c1, e1 := compileRaw([]byte(src), nil, c12ModuleMap())
+		c2, e2 := compileRaw([]byte(printed), nil, c12ModuleMap())
+		if (e1 == nil) != (e2 == nil) {
+			detail["original_error"] = fmt.Sprint(e1)
+			detail["printed_error"] = fmt.Sprint(e2)
+			r.Violate("d:compile", "original and printed form compile differently", detail)
+			return
+		}
+		if e1 != nil {
+			r.Inc("d:compile-error(both)")
+			continue
+		}
+		i1 := strings.Join(c1.BC.FormatInstructions(), ";")
+		i2 := strings.Join(c2.BC.FormatInstructions(), ";")
+		k1, k2 := strings.Join(constSummary(c1.BC), "\n"), strings.Join(constSummary(c2.BC), "\n")
+		if i1 != i2 || k1 != k2 {
+			detail["original_instructions"] = i1
+			detail["printed_instructions"] = i2
+			if k1 != k2 {
+				detail["original_constants"] = k1
+				detail["printed_constants"] = k2
+			}
+			r.Violate("d:bytecode", "original and printed form compile to different instructions or constants", detail)
+			return
+		}
+		r.Inc("d:identical-bytecode")
+		if r.WantSample() && len(src) < 300 {
+			r.Sample(map[string]interface{}{"family": "d", "source": src, "printed": printed})
+		}
+	}
+}
+
+var c20RTDirected = []string{
+	"x := - -a1\ny := + +2\nz := 1 - - -3\nw := !-x\nv := - (-y)\nu := a - -b\n",
+	"a := [1, 2][0]\nb := {k: 1}.k\nc := func(p, ...q) { return p }(1, [2]...)\nd := a ? b : c ? a : b\ne := (a ? b : c) ? a : b\n",
+	"for i := 0; i < 3; i++ { if i == 1 { continue } else if i == 2 { break } else { x := i } }\nfor k, v in {a: 1} { y := k }\nfor v in [1] { z := v }\nfor { break }\nfor a < 3 { a++ }\n",
+	"s := \"q\\\"q\" + `raw` + 'c' + '\\n'\nm := {a: {b: [1, {c: 2}]}}\nm.a.b[1].c += 1\nm[\"a\"].b = immutable([1])\ne := error(\"x\")\nu := undefined\nt := true && !false || 1.5 > 0x10\n",
+	"if x := 1; x > 0 { y := x } else { y := -x }\nf := func() { return }\ng := func() { return 1 }\nexport {f: f, g: g}\n",
 }
